@@ -372,3 +372,29 @@ func MultiNil(x any) any {
 func ConvM[T ~uintptr | ~unsafe.Pointer](x T) unsafe.Pointer { return unsafe.Pointer(x) }
 
 func ConvMCaller(u uintptr) unsafe.Pointer { return ConvM(u) }
+
+// a == b between two non-constant values says nothing about a on the else edge.
+var defaultErr = &DErr{msg: "default"}
+
+func Repair(err error) error {
+	if err == error(defaultErr) {
+		return &DErr{msg: "new"}
+	}
+	return err
+}
+
+func RepairPtr(p *int) *int {
+	q := new(int)
+	if p == q {
+		return q
+	}
+	return p
+}
+
+func RepairNeq(p *int) *int {
+	q := &GInt
+	if q != p {
+		return p
+	}
+	return q
+}
